@@ -23,7 +23,8 @@ func valueToPyObject(value reflect.Value) pyObject {
 		for i := 0; i < value.Len(); i++ {
 			l[i] = pyString(value.Index(i).String())
 		}
-		return l
+		// The base config is shared by every package, so lists in it must not be assignable.
+		return pyFrozenList{pyList: l}
 	case reflect.Struct:
 		return pyString(value.Interface().(fmt.Stringer).String())
 	default:
@@ -68,7 +69,7 @@ func newConfig(state *core.BuildState) *pyConfig {
 	// Bazel supports a 'features' flag to toggle things on and off.
 	// We don't but at least let them call package() without blowing up.
 	if state.Config.Bazel.Compatibility {
-		base["FEATURES"] = pyList{}
+		base["FEATURES"] = pyFrozenList{pyList: pyList{}}
 	}
 
 	arch := state.Arch
